@@ -256,7 +256,8 @@ def fam_lifecycle(tier: str, rnd: random.Random, limit: int) -> list[dict]:
     """C10: histories of requests interleaved with close() calls and event-loop changes."""
     out = []
     al = [{"k": "ans", "d": 1}, {"k": "drop"}, {"k": "garbage", "d": 1}, {"k": "exc", "code": 2, "d": 1},
-          {"k": "pclose", "d": 1}, {"k": "err", "d": 1, "err": errno.ENETUNREACH}]
+          {"k": "pclose", "d": 1}, {"k": "err", "d": 1, "err": errno.ENETUNREACH},
+          {"k": "anseof", "d": 1, "d2": 2}, {"k": "ansclose", "d": 1, "d2": 2}, {"k": "eof", "d": 1}]
     between = ["none", "close", "loop", "close+loop", "sleep"]
     nreq = 3 if tier == "quick" else 4
     for kind in ("udp", "tcp"):
@@ -474,6 +475,14 @@ def conformance(run: Run, scenarios: list[dict], traces: list[dict], per_group: 
         if len(idx) > per_group:
             idx = rnd.sample(idx, per_group)
         scripts = []
+        offgrid = [i for i in idx if any(not float(ev.get("t", 0)).is_integer() for ev in traces[i]["ev"])]
+        if offgrid:
+            # the model lives on the tick grid: an execution with events between ticks cannot be one of its behaviours
+            drift += len(offgrid)
+            total += len(offgrid)
+            run.notes.append(f"DRIFT: {len(offgrid)} executions of group {kind}/{'ka' if ka else 'nka'}/{r} have events between ticks "
+                             "(the library waited for a time the design model does not know)")
+            idx = [i for i in idx if i not in set(offgrid)]
         for i in idx:
             sc, tr = scenarios[i], traces[i]
             trmap: dict[int, int] = {}
